@@ -231,3 +231,12 @@ def run(ctx):
             check_guard(cfg, art, rep)
         if cfg in ("K1", "K2"):
             check_back(cfg, crate, rep)
+            # "the same key algorithm": the parsed request's public key carries the algorithm of the request's own
+            # signature algorithm and the SPKI is bound to it (C06.bind / C06.key)
+            import c06
+            def _c06():
+                body = crate.body(c06.FN)
+                I6 = Interp(crate)
+                I6.run_fn(c06.FN)
+                c06.bind(cfg, crate, I6, rep, "%s|%s" % (cfg, c06.FN))
+            common.borrow_rules(rep, _c06, "C06.", "C07.key")
